@@ -15,6 +15,10 @@
 //! configuration, default environment): n = 1..16 (quick) / 1..64 (thorough)
 //! queries written in one segment.
 //!
+//! Part (d): n connections whose set-up future (`AsyncAccept::Future`)
+//! resolves to Err, then a fresh well-behaved connection that must be
+//! answered, for small configured connection limits and the default 100.
+//!
 //! Tiers: (a) quick = boundary offsets {-18,-17,-12,-11,-10,-1,0,+1} around
 //! {512,513,1232,4096,65535}, thorough = every offset -24..=+2 and six more
 //! advertised sizes; (b) quick <= 3 deviations, thorough <= 4.
@@ -1484,10 +1488,14 @@ impl AsyncWrite for MockStream {
 
 #[derive(Default)]
 struct ListenerState {
-    pending: VecDeque<(MockStream, SocketAddr)>,
+    /// `None` = a connection whose set-up (the `AsyncAccept::Future`, e.g. a
+    /// TLS handshake) is scripted to fail
+    pending: VecDeque<(Option<MockStream>, SocketAddr)>,
     waker: Option<Waker>,
     err_done: bool,
     accept_errors: u32,
+    /// peers whose set-up future resolved to Err
+    setup_failed: Vec<SocketAddr>,
 }
 
 struct ListenerInner {
@@ -1503,6 +1511,16 @@ impl MockListener {
         MockListener(Arc::new(ListenerInner { env: env.clone(), st: Mutex::new(ListenerState::default()) }))
     }
     fn connect(&self, s: MockStream, a: SocketAddr) {
+        self.push(Some(s), a);
+    }
+    /// A peer whose connection set-up fails after it was accepted.
+    fn connect_failing(&self, a: SocketAddr) {
+        self.push(None, a);
+    }
+    fn setup_failed(&self, a: SocketAddr) -> bool {
+        self.0.st.lock().unwrap().setup_failed.contains(&a)
+    }
+    fn push(&self, s: Option<MockStream>, a: SocketAddr) {
         let mut st = self.0.st.lock().unwrap();
         st.pending.push_back((s, a));
         if let Some(w) = st.waker.take() {
@@ -1522,15 +1540,30 @@ impl AsyncAccept for MockListener {
             st.waker = Some(cx.waker().clone());
             return Poll::Pending;
         }
-        let quiet = st.pending.front().map(|p| p.0 .0.quiet).unwrap_or(false);
-        if !quiet && !st.err_done && self.0.env.choose(2, "tcp-accept") == 1 {
-            st.err_done = true;
-            st.accept_errors += 1;
-            return Poll::Ready(Err(io::Error::new(io::ErrorKind::ConnectionAborted, "mock: accept failed")));
+        // scripted failing set-ups and quiet streams ask no question
+        let quiet = st.pending.front().map(|p| p.0.as_ref().map(|s| s.0.quiet).unwrap_or(true)).unwrap_or(false);
+        let mut fail_setup = false;
+        if !quiet && !st.err_done {
+            match self.0.env.choose(3, "tcp-accept") {
+                1 => {
+                    st.err_done = true;
+                    st.accept_errors += 1;
+                    return Poll::Ready(Err(io::Error::new(io::ErrorKind::ConnectionAborted, "mock: accept failed")));
+                }
+                2 => fail_setup = true,
+                _ => {}
+            }
         }
         st.err_done = false;
         let (s, a) = st.pending.pop_front().unwrap();
-        Poll::Ready(Ok((std::future::ready(Ok(s)), a)))
+        match s {
+            Some(s) if !fail_setup => Poll::Ready(Ok((std::future::ready(Ok(s)), a))),
+            _ => {
+                st.setup_failed.push(a);
+                self.0.env.flag("connection-setup-failed");
+                Poll::Ready(Ok((std::future::ready(Err(io::Error::new(io::ErrorKind::InvalidData, "mock: handshake failed"))), a)))
+            }
+        }
     }
 }
 
@@ -1589,6 +1622,9 @@ struct StreamObs {
     c: ConnObs,
     alive: bool,
     stopped: bool,
+    /// the environment made connection A's set-up future resolve to Err:
+    /// the server never had a stream, nothing on A can be expected
+    a_setup_failed: bool,
 }
 
 async fn drive_stream(env: Arc<Env>, plan: &StreamPlan) -> StreamObs {
@@ -1662,7 +1698,8 @@ async fn drive_stream(env: Arc<Env>, plan: &StreamPlan) -> StreamObs {
         let st = s.0.st.lock().unwrap();
         ConnObs { delivered, out: st.out.clone(), client_abort: abort, write_fail: st.write_fail, writes: st.writes.clone(), server_closed: st.shutdown }
     };
-    StreamObs { a: obs(&a, delivered, abort), b: obs(&b, pb, None), c: obs(&c, cb, None), alive, stopped }
+    let a_setup_failed = listener.setup_failed(addr_a);
+    StreamObs { a: obs(&a, delivered, abort), b: obs(&b, pb, None), c: obs(&c, cb, None), alive, stopped, a_setup_failed }
 }
 
 /// Reference deframing: complete frames of a two-octet-length-prefixed stream.
@@ -1782,7 +1819,14 @@ fn run_stream(ch: &mut Chooser, col: &Collector, depth: Option<usize>) {
         viol.push(("C16|stream|server-task-ignores-shutdown".into(), "StreamServer::run did not return after shutdown()".into()));
     }
     let comp_a = if depth.is_some() { "stream-depth" } else { "stream" };
-    let (written_a, expected_a) = judge_conn(comp_a, &obs.a, &log, "192.0.2.20:4000".parse().unwrap(), fixed, &mut viol);
+    let (written_a, expected_a) = if obs.a_setup_failed {
+        if !obs.a.out.is_empty() {
+            viol.push(("C16|stream|octets-written-to-a-connection-that-was-never-set-up".to_string(), format!("{} octets", obs.a.out.len())));
+        }
+        (0, 0)
+    } else {
+        judge_conn(comp_a, &obs.a, &log, "192.0.2.20:4000".parse().unwrap(), fixed, &mut viol)
+    };
     let (written_b, _) = judge_conn("stream-probe-conn", &obs.b, &log, "192.0.2.21:4001".parse().unwrap(), None, &mut viol);
     let (written_c, _) = judge_conn("stream-concurrent-conn", &obs.c, &log, "192.0.2.22:4002".parse().unwrap(), None, &mut viol);
     if written_c != 1 && !viol.iter().any(|v| v.0.starts_with("C16|stream-concurrent-conn")) {
@@ -1807,6 +1851,7 @@ fn run_stream(ch: &mut Chooser, col: &Collector, depth: Option<usize>) {
         *counts.entry(format!("stream.client-abort.{}", obs.a.client_abort.unwrap_or("none"))).or_insert(0) += 1;
         *counts.entry(format!("stream.messages-written-on-A.{written_a}")).or_insert(0) += 1;
         *counts.entry(format!("stream.server-closed-A.{}", obs.a.server_closed)).or_insert(0) += 1;
+        *counts.entry(format!("stream.setup-of-A-failed.{}", obs.a_setup_failed)).or_insert(0) += 1;
         if written_a < expected_a {
             *counts.entry("stream.executions-with-fewer-responses-than-produced(excused-or-not)".into()).or_insert(0) += 1;
         }
@@ -1835,6 +1880,132 @@ fn run_stream(ch: &mut Chooser, col: &Collector, depth: Option<usize>) {
     }
     drop(log);
     col.report(viol, &replay);
+}
+
+// ===========================================================================
+// Part (d): n failed connection set-ups, then a fresh well-behaved connection
+// ===========================================================================
+
+struct SetupObs {
+    probe: ConnObs,
+    alive: bool,
+    stopped: bool,
+    failed: usize,
+}
+
+async fn drive_failed_setups(env: Arc<Env>, n: usize, max_conn: Option<usize>) -> SetupObs {
+    let listener = MockListener::new(&env);
+    let mut cfg = stream::Config::new();
+    if let Some(m) = max_conn {
+        cfg.set_max_concurrent_connections(m);
+    }
+    let srv = Arc::new(StreamServer::with_config(listener.clone(), VecBufSource, mk_server_service(&env), cfg));
+    let s2 = srv.clone();
+    let jh = tokio::spawn(async move { s2.run().await });
+    for k in 0..n {
+        listener.connect_failing(SocketAddr::from(([198, 51, 100, (k % 250) as u8 + 1], 2000 + k as u16)));
+        // one at a time, each fully over before the next peer shows up
+        tokio::time::sleep(Duration::from_millis(100)).await;
+    }
+    tokio::time::sleep(Duration::from_secs(1)).await;
+    let failed = listener.0.st.lock().unwrap().setup_failed.len();
+    let b = MockStream::quiet(&env);
+    let addr_b: SocketAddr = "192.0.2.21:4001".parse().unwrap();
+    listener.connect(b.clone(), addr_b);
+    let pm = probe_message(0x7E57);
+    let mut pb = (pm.len() as u16).to_be_bytes().to_vec();
+    pb.extend_from_slice(&pm);
+    b.feed(&pb);
+    tokio::time::sleep(Duration::from_secs(10)).await;
+    let alive = !jh.is_finished();
+    b.close(false);
+    let _ = srv.shutdown();
+    tokio::time::sleep(Duration::from_secs(1)).await;
+    let stopped = jh.is_finished();
+    let st = b.0.st.lock().unwrap();
+    let probe = ConnObs { delivered: pb, out: st.out.clone(), client_abort: None, write_fail: st.write_fail, writes: st.writes.clone(), server_closed: st.shutdown };
+    drop(st);
+    SetupObs { probe, alive, stopped, failed }
+}
+
+fn run_failed_setups(n: usize, max_conn: Option<usize>, col: &Collector) {
+    let env = Env::new(Chooser::default(), true);
+    let _ = take_task_panics();
+    let env2 = env.clone();
+    let rt = new_runtime();
+    let res = guard(|| rt.block_on(drive_failed_setups(env2, n, max_conn)));
+    drop(rt);
+    let panics = take_task_panics();
+    let replay = json!({"part": "failed-setups", "n": n, "max_concurrent_connections": max_conn});
+    let limit = max_conn.unwrap_or(100);
+    let pred = if n >= limit { "failed-setups>=max_concurrent_connections" } else { "failed-setups<max_concurrent_connections" };
+    let mut viol: Vec<(String, String)> = Vec::new();
+    for p in &panics {
+        viol.push((format!("C16|stream-failed-setups|panic|{}", panic_class(p)), format!("panic in the stream server: {p}")));
+    }
+    let obs = match res {
+        Ok(o) => o,
+        Err(p) => {
+            if panics.is_empty() {
+                viol.push((format!("C16|stream-failed-setups|panic|{}", panic_class(&p)), format!("panic: {p}")));
+            }
+            col.report(viol, &replay);
+            return;
+        }
+    };
+    if obs.failed != n {
+        eprintln!("MACHINERY: {} of {n} scripted set-up failures were consumed by the server", obs.failed);
+        std::process::exit(2);
+    }
+    if !obs.alive {
+        viol.push((format!("C16|stream-failed-setups|server-task-exited|{pred}"), "StreamServer::run returned before shutdown".into()));
+    }
+    if !obs.stopped {
+        viol.push(("C16|stream-failed-setups|server-task-ignores-shutdown".into(), "StreamServer::run did not return after shutdown()".into()));
+    }
+    let log = env.log.lock().unwrap();
+    let before = viol.len();
+    let (written, _) = judge_conn("stream-failed-setups", &obs.probe, &log, "192.0.2.21:4001".parse().unwrap(), Some(pred), &mut viol);
+    if written != 1 && viol.len() == before {
+        viol.push((
+            format!("C16|stream-failed-setups|fresh-connection-unanswered|{pred}"),
+            format!("after {n} connections whose set-up future resolved to Err (max_concurrent_connections {limit}) a fresh well-behaved connection got {written} responses, server closed it: {}", obs.probe.server_closed),
+        ));
+    }
+    // a request that never reached the service is the same event: one class
+    for v in viol.iter_mut() {
+        if v.0.starts_with("C16|stream-failed-setups|request-not-dispatched") {
+            v.0 = format!("C16|stream-failed-setups|fresh-connection-unanswered|{pred}");
+            v.1 = format!("after {n} connections whose set-up future resolved to Err (max_concurrent_connections {limit}) the query of a fresh well-behaved connection never reached the service; {written} responses, server closed it: {}", obs.probe.server_closed);
+        }
+    }
+    let st = &col.stats;
+    st.eval();
+    st.count(&format!("failed-setups.limit={limit:03}.n={n:03}.probe-answers={written}"));
+    st.distinct(fnv(format!("failed-setups{n}/{max_conn:?}").as_bytes()));
+    st.sample(12, || json!({"part": "failed-setups", "n": n, "max_concurrent_connections": limit, "probe_answers": written}));
+    if col.verbose {
+        println!("failed-setups: n={n} max_concurrent_connections={limit}: fresh connection got {written} responses ({} octets), server_closed={}", obs.probe.out.len(), obs.probe.server_closed);
+        println!("  dispatched: {:?}", log.dispatched.iter().map(|d| format!("{:#x}", d.0)).collect::<Vec<_>>());
+    }
+    drop(log);
+    col.report(viol, &replay);
+}
+
+/// (n, configured max_concurrent_connections) pairs of part (d).
+fn failed_setup_cases(quick: bool) -> Vec<(usize, Option<usize>)> {
+    let mut v = Vec::new();
+    for limit in [1usize, 2, 3] {
+        for n in 0..=(limit + if quick { 2 } else { 5 }) {
+            v.push((n, Some(limit)));
+        }
+    }
+    // default configuration (100)
+    let ns: Vec<usize> = if quick { vec![1, 99, 100, 101] } else { (1..=130).collect() };
+    for n in ns {
+        v.push((n, None));
+    }
+    v
 }
 
 // ===========================================================================
@@ -1890,6 +2061,9 @@ fn main() {
             Some("depth") => {
                 let mut ch = Chooser::default();
                 run_stream(&mut ch, &col, Some(case["n"].as_u64().unwrap() as usize));
+            }
+            Some("failed-setups") => {
+                run_failed_setups(case["n"].as_u64().unwrap() as usize, case["max_concurrent_connections"].as_u64().map(|x| x as usize), &col);
             }
             _ => {
                 eprintln!("MACHINERY: unknown replay case");
@@ -1964,7 +2138,16 @@ fn main() {
         wd.leave();
     }
 
-    let b_execs = dg.executions + sx.executions + max_depth as u64;
+    // ---- part (d): failed connection set-ups, then a fresh connection --------
+    let fs_cases = failed_setup_cases(quick);
+    // sequential and ascending, so that the smallest failing n is the replay
+    for (n, limit) in &fs_cases {
+        wd.enter(|| json!({"part": "failed-setups", "n": n}));
+        run_failed_setups(*n, *limit, &col);
+        wd.leave();
+    }
+
+    let b_execs = dg.executions + sx.executions + max_depth as u64 + fs_cases.len() as u64;
     let evaluations = a_stats.evals() + b_execs;
     let distinct = a_stats.distinct_count() + col.stats.distinct_count();
     let mut samples = a_stats.samples();
@@ -1977,7 +2160,7 @@ fn main() {
             "traces_validated_against_impl": a_stats.evals() + b_execs,
             "evaluations": evaluations,
             "distinct_nontrivial": distinct,
-            "rule": "(a) a case is non-trivial when the middleware changed the service's response, truncated it, or it exceeds the bound; (b) an execution is non-trivial when it has >= 1 non-default choice; (c) every depth; distinct by hash of the case / choice vector",
+            "rule": "(a) a case is non-trivial when the middleware changed the service's response, truncated it, or it exceeds the bound; (b) an execution is non-trivial when it has >= 1 non-default choice; (c) every depth; (d) every (n, limit) pair; distinct by hash of the case / choice vector",
             "exhaustive": exhaustive,
             "samples": samples,
             "part_a": {
@@ -1991,13 +2174,15 @@ fn main() {
                 "dgram": {"executions": dg.executions, "per_deviation_count": dg.per_bound, "choice_points": dg.choice_points, "max_trace": dg.max_trace, "capped": dg_capped},
                 "stream": {"executions": sx.executions, "per_deviation_count": sx.per_bound, "choice_points": sx.choice_points, "max_trace": sx.max_trace, "capped": sx_capped},
                 "pipeline_depths": max_depth,
+                "failed_setup_cases": fs_cases.iter().map(|(n, l)| json!([n, l])).collect::<Vec<_>>(),
                 "histogram": col.stats.counters_json(),
             },
         }),
         &[
             "every tokio::select! in dgram.rs, stream.rs and connection.rs is `biased;`, and each case runs on its own current-thread runtime with a paused clock, so task scheduling is deterministic without tokio_unstable/rng_seed; the only nondeterminism left is what the mocks answer, which is enumerated",
             "schedules covered are those of a single-threaded executor (FIFO run queue) combined with the enumerated arrival gaps, service delays and I/O readiness answers; preemption between arbitrary instructions on a multi-threaded runtime is not explored",
-            "part (b) bounds: 3 request slots, one connection plus one later probe connection, <= 2 (quick) / <= 3 (thorough) non-default choices among request kind, segmentation, service behaviour, client abort and every socket/stream answer",
+            "part (b) bounds: 3 request slots, one connection plus one concurrent and one later well-behaved connection, <= 3 (quick) / <= 4 (thorough) non-default choices among request kind, segmentation, service behaviour, client abort and every socket/stream answer (incl. poll_accept error and the accepted connection's set-up future resolving to Err)",
+            "part (d): n connections whose AsyncAccept::Future resolves to Err arrive one at a time (100 ms apart), then one fresh well-behaved connection; max_concurrent_connections in {1,2,3} with n = 0..=limit+2 (quick) / limit+5 (thorough), and the default 100 with n in {1,99,100,101} (quick) / 1..=130 (thorough); a connection whose set-up failed holds no slot of the connection limit",
             "a complete frame shorter than a DNS header, a client EOF/reset, or an environment write failure on a connection excuses missing responses on THAT connection (closing such a connection is permitted, RFC 7766 6.2.4); other connections and earlier written responses are still checked",
             "a FORMERR response with an empty question section is accepted as echoing the question (the server declares it could not parse the request)",
             "UDP bound: min(max(advertised,512), configured limit), 512 when the request carries no (or more than one) OPT; the configured limit is what DgramServer passes as UdpTransportContext hint (dgram.rs process_received_message)",
